@@ -4,6 +4,10 @@
 # Prints the check's summary line and verdict; exit code is the check's exit code.
 set -u
 PATCH="$(readlink -f "$1")"; ID="$2"; TIER="${3:-quick}"
+# hold the build lock of ./check for the whole time /repo is mutated; use a target dir of our own so that
+# binaries of concurrently running checks are never replaced
+mkdir -p /verif/scratch; exec 8>/verif/scratch/repo.lock; flock 8
+export PV_NO_BUILD_LOCK=1 PV_TARGET_DIR=/verif/harness/target-seed
 cd /repo || exit 2
 if [ -n "$(git status --porcelain --untracked-files=no | grep -v 'inputs/repair')" ]; then
   echo "refusing: /repo has uncommitted changes"; git status --short | head; exit 2
